@@ -94,6 +94,37 @@ def model_check(s, prop, workers=4, timeout=900):
     return res
 
 
+def apalache_heap(check):
+    """spec/HeapInd.tla: the accounting invariant is INDUCTIVE (behaviours of any length, unbounded counters),
+    discharged by Apalache; TLC ties HeapInd to Heap.tla through the invariant IndInvOnHeap.  A failure here is
+    a statement about the design (MODEL-COUNTEREXAMPLE), never a VIOLATION of the code."""
+    import subprocess, shutil
+    exe = shutil.which("apalache-mc")
+    out = {}
+    if not exe:
+        check.cov["apalache"] = "apalache-mc not found"
+        return
+    obligations = [("Init=>IndInv", ["--init=Init", "--inv=IndInv", "--length=0"]),
+                   ("IndInv/\\Next=>IndInv'", ["--init=IndInit", "--inv=IndInv", "--length=1"]),
+                   ("IndInv=>C06 clauses", ["--init=IndInit", "--inv=Props", "--length=0"])]
+    od = os.path.join(WORK, "apalache_%d" % os.getpid())
+    for name, args in obligations:
+        t0 = time.time()
+        try:
+            p = subprocess.run([exe, "check"] + args + ["--out-dir=" + od, "HeapInd.tla"], cwd=common.SPEC,
+                               stdout=subprocess.PIPE, stderr=subprocess.STDOUT, text=True, timeout=900)
+            verdict = "NoError" if "The outcome is: NoError" in p.stdout else ("Error" if "The outcome is: Error" in p.stdout
+                                                                               else "tool problem (exit %d)" % p.returncode)
+        except subprocess.TimeoutExpired:
+            verdict = "timeout"
+        out[name] = {"outcome": verdict, "wall_s": round(time.time() - t0, 1)}
+        if verdict == "Error":
+            print("MODEL-COUNTEREXAMPLE spec=HeapInd.tla obligation=%s (Apalache)" % name)
+            check.cov.setdefault("model_counterexamples", []).append(("HeapInd", name))
+    shutil.rmtree(od, ignore_errors=True)
+    check.cov["apalache_inductive_invariant(HeapInd.tla)"] = out
+
+
 def batch_scripts(scenarios):
     """One script table for a batch of scenarios; returns (table, {name: entry index})."""
     table, entry = [], {}
@@ -257,6 +288,7 @@ def run(prop, tier, check=None):
         if not hres.ok:
             print("MODEL-COUNTEREXAMPLE spec=Heap.tla invariants=%s" % hres.violated)
             check.cov.setdefault("model_counterexamples", []).append(("Heap", hres.violated))
+        apalache_heap(check)
     # ---- 2. the real code under random schedules
     table, entry = batch_scripts(scenarios)
     scriptsfile = os.path.join(WORK, "scripts_%s.json" % prop)
